@@ -152,6 +152,7 @@ def run_driver_loops(prog, threads=2):
                          ("boundary_conditions_", opsdom.AbstractInput("boundary")), ("exact_solution_", opsdom.AbstractInput("exact")),
                          ("domain_geometry_", S.geom), ("density_profile_coefficients_", S.coef)):
                 gm.f[k] = Cell(v, k)
+            tab_ops.default_other_members(dom, gm, "GMGPolar")
             N, Nc = nr * nt, cg_.shape[0] * cg_.shape[1]
             for qn, args in (("GMGPolar::build_rhs_f", lambda: [Cell(l0), Cell(SArr("rhs_f", N))]),
                              ("GMGPolar::discretize_rhs_f", lambda: [Cell(l0), Cell(SArr("rhs_f", N, gen=lambda j: dag.atom("f_%d" % j)))]),
